@@ -185,17 +185,23 @@ fn par_for<F: Fn(usize, &mut Stats, &mut Vec<(String, String)>) + Sync>(n: usize
 fn huge_chunk_cases(seed: u64, thorough: bool, st: &mut Stats) {
     let mut cases: Vec<(&str, u32)> = vec![("lzma", 1), ("zstd", 1), ("brotli", 1)];
     if thorough { cases.extend([("lzma", 9), ("lzma", 3), ("zstd", 19), ("brotli", 9), ("none", 0)]); } else { cases.push(("lzma", 6)); }
+    // one chunk beyond the default maximum chunk size of 16 MiB (level 101 = level 1, a 17 MiB chunk in an 18 MiB source)
+    cases.push(("zstd", 101));
+    if thorough { cases.extend([("brotli", 101), ("lzma", 101)]); }
     let cases = &cases;
     let results: Vec<Option<String>> = std::thread::scope(|sc| {
         let hs: Vec<_> = (0..cases.len()).map(|i| sc.spawn(move || {
             let (codec, level) = cases[i];
+            let over16 = level > 100;
+            let level = level % 100;
             let mut rng = Rng::new(seed ^ 0x9a ^ ((i as u64) << 12));
-            // low-alphabet data (compressible, but not trivially): 9 MiB in chunks of 4 MiB
-            let src: Vec<u8> = (0..9 * 1024 * 1024 + 12345).map(|_| b"0123456789abcdef"[rng.below(16) as usize]).collect();
+            // low-alphabet data (compressible, but not trivially): 9 MiB in chunks of 4 MiB (or 18 MiB, one chunk of 17 MiB)
+            let n = if over16 { 18 * 1024 * 1024 + 999 } else { 9 * 1024 * 1024 + 12345 };
+            let src: Vec<u8> = (0..n).map(|_| b"0123456789abcdef"[rng.below(16) as usize]).collect();
             let s = Scn::new("hc", i as u64);
             s.write("src.bin", &src);
             let lv = format!("{}", level);
-            let mut a: Vec<&str> = vec!["compress", "-i", "src.bin", "--fixed-size", "4MiB", "--compression", codec];
+            let mut a: Vec<&str> = vec!["compress", "-i", "src.bin", "--fixed-size", if over16 { "17MiB" } else { "4MiB" }, "--compression", codec];
             if codec != "none" { a.extend(["--compression-level", lv.as_str()]); }
             a.push("big.cba");
             let (c1, l1) = s.bita(&a, None, &[]);
